@@ -28,11 +28,11 @@ FILES = ["packet.go", "data_pes.go", "data_psi.go", "data_pat.go", "data_pmt.go"
          "crc32.go", "clock_reference.go", "pools.go", "program_map.go", "wrapping_counter.go"]
 
 CHECKS = {
-    "packet.go": "C11,C04,C02,C01,C16,C19,C18", "data_pes.go": "C12,C01,C03,C02", "data_psi.go": "C13,C09,C03,C02,C17",
-    "data_pat.go": "C13,C09,C17", "data_pmt.go": "C13,C09,C17,C01", "data_sdt.go": "C13,C09,C03", "data_nit.go": "C13,C09,C03",
-    "data_eit.go": "C13,C09,C03", "data_tot.go": "C13,C09,C03", "descriptor.go": "C14,C13,C09,C03", "dvb.go": "C15,C13,C14",
-    "muxer.go": "C01,C04,C05,C17,C18,C09", "demuxer.go": "C02,C03,C20,C19,C07,C18,C06", "packet_buffer.go": "C08,C03,C18,C19,C20",
-    "packet_pool.go": "C06,C07,C02,C20,C19", "data.go": "C02,C07,C19,C16,C03,C06", "crc32.go": "C10,C09",
+    "packet.go": "C11,C04,C02", "data_pes.go": "C12,C01,C03", "data_psi.go": "C13,C09,C02",
+    "data_pat.go": "C13,C17", "data_pmt.go": "C13,C17,C01", "data_sdt.go": "C13,C03", "data_nit.go": "C13,C03",
+    "data_eit.go": "C13,C03", "data_tot.go": "C13,C03", "descriptor.go": "C14,C13,C09", "dvb.go": "C15,C13",
+    "muxer.go": "C01,C04,C05,C17,C18", "demuxer.go": "C02,C03,C20,C19,C07", "packet_buffer.go": "C08,C03,C18,C19",
+    "packet_pool.go": "C06,C07,C02,C20", "data.go": "C02,C07,C19,C16,C03", "crc32.go": "C10,C09",
     "clock_reference.go": "C12", "pools.go": "C16,C02", "program_map.go": "C02,C17,C20", "wrapping_counter.go": "C05,C17",
 }
 
